@@ -559,6 +559,10 @@ pub trait Object {
                     .next()
                     .and_then(|i| i.strip_suffix("]"))
                     .and_then(|i| i.parse::<usize>().ok())?;
+                // NOTE: `key[0][1]` is not `key[0]`, only a single index is supported.
+                if parts.next().is_some() {
+                    return None;
+                }
                 match v {
                     Some(Value::Object(value)) => match value.get(k) {
                         Some(Value::Array(a)) => v = Some(a.iter().nth(i)?),
@@ -609,6 +613,10 @@ pub trait Object: Send + Sync {
                     Some(i) => i,
                     None => return None,
                 };
+                // NOTE: `key[0][1]` is not `key[0]`, only a single index is supported.
+                if parts.next().is_some() {
+                    return None;
+                }
                 match v {
                     Some(Value::Object(value)) => match value.get(k) {
                         Some(Value::Array(a)) => v = Some(a.iter().nth(i)?),
